@@ -20,6 +20,11 @@ class StmtMixin:
             ls = self.cur_contract.get("locals", {}).get(tgt.id)
             if ls is not None and isinstance(val, T) and val.sort != ls and (val.sort == NONE or (isinstance(ls, tuple) and ls[0] == "Opt" and val.sort == ls[1])):
                 val = self.coerce(val, ls, "local " + tgt.id)
+            elif ls is not None and isinstance(ls, tuple) and ls[0] == "Seq" and not (isinstance(val, T) and val.sort == ls):
+                try:      # a list display assigned to a local of declared sequence sort
+                    val = self.coerce(val, ls, "local " + tgt.id)
+                except Unsupported:
+                    pass
             st.env[tgt.id] = val
             if isinstance(val, T) and val.cls:
                 st.cls[tgt.id] = val.cls
@@ -145,6 +150,19 @@ class StmtMixin:
         self.cur_line = getattr(s, "lineno", 0)
         if isinstance(s, ast.Expr):
             if isinstance(s.value, ast.Constant):
+                return
+            if isinstance(s.value, ast.Yield) and self.cur_contract.get("yields") is not None:
+                # generator under contract: the yielded values are collected, in order, in the ghost sequence `yielded`
+                ys = self.cur_contract["yields"]
+                v = self.ev(s.value.value, st) if s.value.value is not None else T(NONE, "none")
+                v = self.coerce(v, ys[1], "yield")
+                cur = st.ghost["yielded"]
+                r = self.opaque("yl", ys)
+                st.pc.append(f"(= {r.s} (seq.++ {cur.s} (seq.unit {v.s})))")
+                st.pc.append(f"(= (seq.len {r.s}) (+ (seq.len {cur.s}) 1))")
+                st.pc.append(f"(forall ((|q_a| Int)) (! (=> (and (>= |q_a| 0) (< |q_a| (seq.len {cur.s}))) (= (seq.nth {r.s} |q_a|) (seq.nth {cur.s} |q_a|))) :pattern ((seq.nth {r.s} |q_a|))))")
+                st.pc.append(f"(= (seq.nth {r.s} (seq.len {cur.s})) {v.s})")
+                st.ghost["yielded"] = r
                 return
             self.ev(s.value, st)
             return
@@ -341,6 +359,8 @@ class StmtMixin:
                         locs.add(self._root(t.value).id)
                     if isinstance(t, ast.Attribute) and t.attr in self.m.fields:
                         flds.add(t.attr)
+                if isinstance(x, ast.Yield) and self.cur_contract.get("yields") is not None:
+                    ghosts.add("yielded")
                 if isinstance(x, ast.Call):
                     f = x.func
                     if isinstance(f, ast.Attribute) and f.attr in MUTATORS:
@@ -385,7 +405,7 @@ class StmtMixin:
             for k, v in loops.items():
                 if isinstance(k, str) and "|" in k:
                     a, b = k.split("|", 1)
-                    if a in it and (b == "" or b in callees):
+                    if (a[1:] == it if a.startswith("=") else a in it) and (b == "" or b in callees):     # '=expr|' matches the iterated expression exactly
                         sp = v
                         self.loop_alias = getattr(self, "loop_alias", {})
                         self.loop_alias[idx] = k
